@@ -79,6 +79,9 @@ class temperature(PseudoNetCDFFile):
         for i, (t, d) in enumerate(times):
             if (t, d) != (self.STIME, self.SDATE):
                 break
+        else:
+            # a single time step: every record carries the first time
+            i = len(times)
         self.SDATE = self.SDATE.view('i')
         self.createDimension('LAY', i - 1)
         self.createDimension('TSTEP', times.shape[0] / i)
